@@ -3709,7 +3709,7 @@ pub fn run(ctx: &Ctx) -> Report {
     }
 
     start_watchdog(ctx);
-    let scale = ctx.pick(1usize, 40usize);
+    let scale = ctx.pick(3usize, 40usize);
     let ns = ctx.nshards.max(1);
     // per-run budgets (inputs) of the synchronous targets, split over the shards
     let plan: [(T, usize, usize); 9] = [
